@@ -418,12 +418,30 @@ func genC05MaskURL(r *rng, n int, w *bufio.Writer) {
 	r = remix(r)
 	for i := 0; i < n; {
 		f, text := genValidNetRule(r, false)
+		var sides []string
+		if r.chance(1, 4) {
+			// a literal pipe INSIDE the pattern (no leading pipe): were it ever read as an alternation, a URL with
+			// only one side would be accepted although the shortcut comes from the other side
+			a, b := pick(r, c05Words), pick(r, c05Words)+"_"+pick(r, c05Words)
+			if r.chance(1, 2) {
+				a, b = b, a
+			}
+			text = a + "|" + b + pick(r, []string{"", "^", "$domain=example.org", "$script"})
+			var err error
+			if f, err = rules.NewNetworkRule(text, 1); err != nil {
+				continue
+			}
+			sides = []string{a, b}
+		}
 		if f.IsRegexRule() {
 			continue
 		}
 		re, status := f.VerifPrepared()
 		for k := 0; k < 3; k++ {
 			u := urlAround(r, f.VerifRaw().Pattern)
+			if sides != nil && k > 0 {
+				u = "http://" + pick(r, poolDomains) + "/" + sides[k-1] + pick(r, []string{"", "/", "?x=1"})
+			}
 			if r.chance(1, 4) {
 				u = mutateCase(r, u)
 			}
